@@ -176,6 +176,22 @@ def data_session(col, binpath, vmon, rng, tag, scratch):
             raise Inconclusive("Airplanes table not on screen after view controls")
         if ok:
             rows_equal(col, rows2, sim, "", dict(inp, view_controls=seq), "after_view_controls")
+        # data decoded while the view is panned / zoomed is still computed from the receiver's position
+        sess.key("F1")
+        for k in ("Up", "Left", "-"):
+            sess.key(k)
+            seq.append(k)
+            sess.p.pump(0.05)
+        sess.srv.release("batch2")
+        end = time.monotonic() + 40
+        while time.monotonic() < end and not sess.srv.marked("feed2_done"):
+            sess.p.pump(0.1)
+        rows3 = wait_rows(sess, sim2["len"], sentinel=SENTINELS[1])
+        col.count("rows_compared", len(sim2["rows"]))
+        if rows3 is None:
+            raise Inconclusive("Airplanes table not on screen after the second batch")
+        if ok:
+            rows_equal(col, rows3, sim2, "", dict(inp, view_controls=seq, lines2=[l.decode() for l in lines2]), "data_decoded_while_view_is_panned")
         # reset: the view is centred on the receiver again
         sess.key("F1")
         sess.p.pump(0.1)
@@ -188,17 +204,6 @@ def data_session(col, binpath, vmon, rng, tag, scratch):
             col.inconc("title bar not found after reset")
         elif m.group(3) or abs(float(m.group(1)) - lat) > 0.0006 or abs(float(m.group(2)) - lon) > 0.0006:
             col.add("C18", "C18|reset_does_not_return_to_receiver", f"after view controls {seq[-8:]} and reset the title shows {m.group(0)!r}; the receiver is at ({lat:.3f},{lon:.3f})", dict(inp, view_controls=seq))
-        # data decoded after the view controls is still computed from the receiver's position
-        sess.srv.release("batch2")
-        end = time.monotonic() + 40
-        while time.monotonic() < end and not sess.srv.marked("feed2_done"):
-            sess.p.pump(0.1)
-        rows3 = wait_rows(sess, sim2["len"], sentinel=SENTINELS[1])
-        col.count("rows_compared", len(sim2["rows"]))
-        if rows3 is None:
-            raise Inconclusive("Airplanes table not on screen after the second batch")
-        if ok:
-            rows_equal(col, rows3, sim2, "", dict(inp, view_controls=seq, lines2=[l.decode() for l in lines2]), "data_decoded_after_view_controls")
     finally:
         sess.close()
 
